@@ -251,6 +251,11 @@ type kgoLogger struct{ s *Sim }
 
 func (l *kgoLogger) Level() kgo.LogLevel { return kgo.LogLevelDebug }
 func (l *kgoLogger) Log(level kgo.LogLevel, msg string, keyvals ...any) {
+	if raceBuild {
+		// no shared lock, no formatting: only the seeded yield
+		rtYield(0x10c)
+		return
+	}
 	var b strings.Builder
 	b.WriteString("KGO ")
 	b.WriteString(msg)
@@ -273,6 +278,9 @@ func (l *kgoLogger) Log(level kgo.LogLevel, msg string, keyvals ...any) {
 type kfakeLogger struct{ s *Sim }
 
 func (l *kfakeLogger) Logf(level kfake.LogLevel, f string, a ...any) {
+	if raceBuild {
+		return
+	}
 	l.s.Logf("KFAKE "+f, a...)
 }
 
